@@ -207,6 +207,11 @@ for _p in ('C02', 'C06', 'C11'):
     CHECKS[_p]['stages'].append(_e4_nd(_p, 800, 24000))
 
 
+# E5: real processes, real OpenMPI (thorough tier of C02 only; see lib/e5.py)
+CHECKS['C02']['stages'].append(stage('e5', [], name='e5(mpiexec, real OpenMPI, -O2 -DNDEBUG)', engine='mpiexec', thorough_only=True,
+                                     deterministic=False, thorough=dict(cases=84, time_budget=900, case_timeout=240, min_nontrivial=20)))
+
+
 # thorough tier: wider bounds of the runtime campaign (up to 40 LPs, 12 threads, goals up to ~650 events)
 for _p, _spec in CHECKS.items():
     for _st in _spec['stages']:
